@@ -50,9 +50,107 @@ REQUIRED = [
     "Pixman.Props.C17Draw.a8_same_format",
     "Pixman.Props.C17Draw.a8_accumulate_sum",
     "Pixman.Props.C17Draw.a8_accumulate_order_independent",
+    # ADD accumulation bridged to C01's compositePixel and C10's codec: a1 / a4 / a8 / a8r8g8b8 CA
+    "Pixman.Props.C17Add.glyph_format_codes",
+    "Pixman.Props.C17Add.fetch_store_codec_is_C10",
+    "Pixman.Props.C17Add.a8_fetch",
+    "Pixman.Props.C17Add.a8_store",
+    "Pixman.Props.C17Add.a4_store",
+    "Pixman.Props.C17Add.a1_store",
+    "Pixman.Props.C17Add.a8_white_add",
+    "Pixman.Props.C17Add.a4_white_add",
+    "Pixman.Props.C17Add.a1_white_add",
+    "Pixman.Props.C17Add.ca_white_add",
+    "Pixman.Props.C17Add.ca_same_format",
+    "Pixman.Props.C17Add.hsame_a8",
+    "Pixman.Props.C17Add.hsame_a4",
+    "Pixman.Props.C17Add.hsame_a1",
+    "Pixman.Props.C17Add.hsame_a8r8g8b8",
+    "Pixman.Props.C17Add.add_glyphs_a4_mask",
+    "Pixman.Props.C17Add.add_glyphs_mask_of",
+    "Pixman.Props.C17Add.a4_accumulate_sum",
+    "Pixman.Props.C17Add.a4_accumulate_order_independent",
+    "Pixman.Props.C17Add.a1_accumulate_order_independent",
+    "Pixman.Props.C17Add.ca_accumulate_channels",
+    "Pixman.Props.C17Add.ca_accumulate_order_independent",
+    # dispatch: the key the glyph loops build by hand vs the key of pixman_image_composite32
+    "Pixman.Props.C17Dispatch.glyph_analyze",
+    "Pixman.Props.C17Dispatch.forced_cover_flag_sound",
+    "Pixman.Props.C17Dispatch.composite32_decision_is_glyph_key",
+    "Pixman.Props.C17Dispatch.no_promotion",
+    "Pixman.Props.C17Dispatch.no_promotion_solid",
+    "Pixman.Props.C17Dispatch.operator_kept",
+    "Pixman.Props.C17Dispatch.glyph_loop_looks_up_composite32_function",
+    "Pixman.Props.C17Dispatch.admits_mono",
+    "Pixman.Props.C17Dispatch.composite32_key_subsumes_glyph_key",
+    "Pixman.Props.C17Dispatch.glyph_and_composite32_render_same_partial",
+    "Pixman.Props.C17Dispatch.add_same_key_partial",
+    "Pixman.Props.C17Dispatch.saturate_opaque_glyph_keys_differ",
+    "Pixman.Props.C17Dispatch.saturate_opaque_bits_source_keys_differ",
 ]
 
 M64 = (1 << 64) - 1
+
+
+def run_stream(exe, lines, d, tag, env=None, proc_timeout=90, max_restarts=40):
+    """Run `exe exec <ops> <out>` over `lines`; returns one output per line.
+    The harnesses run every library call under a CPU-time and a wall-clock watchdog, report an expired watchdog
+    ("HANG") or a fatal signal ("CRASH") as the result of the line and EXIT (status 3): the harness is restarted
+    here on the remaining lines.  `proc_timeout` is a wall-clock backstop on every harness process (a check must
+    never hang): a process that had to be killed, or that died silently, marks the line it was executing
+    "K | KILLED" / "K | DIED".  After `max_restarts` failures the remaining lines are "S | SKIPPED"."""
+    outs, pos, restarts = [], 0, 0
+    while pos < len(lines):
+        ops, out = d / f"{tag}.r{restarts}.ops", d / f"{tag}.r{restarts}.out"
+        ops.write_text("\n".join(lines[pos:]) + "\n")
+        if out.exists():
+            out.unlink()
+        killed, rc = False, None
+        try:
+            rc = subprocess.run([str(exe), "exec", str(ops), str(out)], env=env, stdout=subprocess.DEVNULL,
+                                stderr=subprocess.DEVNULL, timeout=proc_timeout).returncode
+        except subprocess.TimeoutExpired:
+            killed = True
+        text = out.read_text(errors="replace") if out.exists() else ""
+        complete = text.split("\n")
+        partial = complete.pop()
+        complete = complete[:len(lines) - pos]
+        outs += complete
+        pos += len(complete)
+        if pos >= len(lines):
+            break
+        reported = bool(complete) and rc == 3 and ("HANG" in complete[-1] or "CRASH" in complete[-1])
+        if not reported:
+            why = "K | KILLED wall-clock backstop: the harness process did not finish" if killed else f"K | DIED harness exit status {rc}"
+            outs.append((partial + " " if partial else "") + why)
+            pos += 1
+        restarts += 1
+        if restarts > max_restarts:
+            outs += ["S | SKIPPED after repeated harness failures"] * (len(lines) - pos)
+            break
+    return outs
+
+
+OPNAME = {"F": "freeze", "T": "thaw", "I": "insert", "X": "insert (image copy not allocatable)", "L": "lookup",
+          "R": "remove", "U": "lookup + composite_glyphs_no_mask"}
+
+
+def fail_where(toks, out):
+    """(number of operations of the prefix that ends with the operation that did not return, name of that operation)"""
+    first = out.split(" | ")[0].split() if " | " in out else []
+    if first and first[-1] in ("H", "C", "K") and len(first) - 1 < len(toks):
+        k = len(first) - 1
+        return k + 1, OPNAME.get(toks[k][0], "?")
+    return len(toks), "the final walk of the MRU list / destroy"
+
+
+def failure_kind(out):
+    """classification of a harness result that is not an ordinary answer"""
+    if "HANG" in out or "KILLED" in out:
+        return "an operation did not terminate"
+    if "CRASH" in out or "DIED" in out:
+        return "the library crashed (fatal signal) during the history"
+    return None
 
 
 
@@ -94,10 +192,38 @@ def cluster_default():
         by = collections.defaultdict(list)
         for k in range(1, 120000):
             by[wang(0, k) % 32768].append(k)
-        base = max(by, key=lambda s: sum(len(by[(s + d) % 32768]) for d in range(3)))
+        base = max(list(by), key=lambda s: sum(len(by.get((s + d) % 32768, ())) for d in range(3)))
         for d in range(3):
-            _cluster_default.extend(by[(base + d) % 32768])
+            _cluster_default.extend(by.get((base + d) % 32768, ()))
     return _cluster_default
+
+
+_by_default = {}
+
+
+def homes(hs):
+    """home slot -> keys (font 0)"""
+    if hs == 32768:
+        if not _by_default:
+            for k in range(1, 120000):
+                _by_default.setdefault(wang(0, k) % 32768, []).append(k)
+        return _by_default
+    by = {}
+    for k in range(1, 400):
+        by.setdefault(wang(0, k) % hs, []).append(k)
+    return by
+
+
+def wrap_cluster(hs):
+    """keys whose probe runs cross the end of the table: home slots HASH_SIZE-2, HASH_SIZE-1, 0, 1 (two or three
+    keys each), listed in probe order"""
+    by = homes(hs)
+    out = []
+    for slot in ((hs - 2) % hs, hs - 1, 0, 1 % hs):
+        for k in by.get(slot, [])[:3 if slot == hs - 1 else 2]:
+            if k not in out:
+                out.append(k)
+    return out
 
 
 def oracle(line, out, hs, high, low):
@@ -112,12 +238,19 @@ def oracle(line, out, hs, high, low):
     remove deletes that one (Props/C17: lookup_any_history, step_any_history)."""
     toks = line.split()[4:]
     res = out.split(" | ")[0].split()
-    if "HANG" in out:
-        return "an operation did not terminate"
+    if out.startswith("S | SKIPPED"):
+        return None
+    fk = failure_kind(out)
+    if fk:
+        return fk
+    mru = []                               # keys by recency of insertion / drawing, most recent first
+    n_removed = 0                          # removals that may have left a tombstone
+    dup_seen = False                       # some key was inserted while (possibly) present
     cand = collections.defaultdict(set)    # key -> ids possibly live
     sure = collections.Counter()           # key -> lower bound on the number of live entries
     upper = collections.Counter()          # key -> upper bound
     freeze = 0
+    n_acc = 0                              # accepted insertions so far
     for i, (t, r) in enumerate(zip(toks, res)):
         op = t[0]
         key = t[2:] if len(t) > 1 else None
@@ -125,11 +258,28 @@ def oracle(line, out, hs, high, low):
             freeze += 1
         elif op == "T":
             freeze -= 1
-            if freeze == 0 and sum(upper.values()) > low:
-                sure.clear()           # anything may have been evicted
+            # the code evicts when n_glyphs + n_tombstones > HIGH (tombstones count: with more than HIGH
+            # of them the whole table is dumped, however few glyphs are live); live + tombstones never
+            # exceeds the number of accepted insertions, so below that nothing may disappear
+            if freeze == 0 and n_acc > high:
+                # ... least recently used first, down to LOW: unless the table may have been dumped (that needs
+                # more than HIGH tombstones, i.e. more than HIGH removals) the LOW most recently used entries
+                # survive (only claimed for histories that never inserted a present key)
+                keep = {}
+                if n_removed <= high and not dup_seen:
+                    live_mru = [k for k in mru if sure[k] > 0]
+                    keep = {k: sure[k] for k in live_mru[:low]}
+                # evicted entries leave tombstones as well: they count towards a later table dump
+                n_removed += max(0, sum(upper.values()) - len(keep))
+                sure.clear()           # anything else may have been evicted
+                sure.update(keep)
         elif op == "I":
             if r.startswith("I"):
                 cand[key].add(int(r[1:]))
+                if upper[key] > 0:
+                    dup_seen = True    # recency is per object: the key-level order below is no longer reliable
+                n_acc += 1
+                mru = [key] + [k for k in mru if k != key]
                 sure[key] += 1
                 upper[key] += 1
             elif r == "N" and freeze > 0:
@@ -139,7 +289,12 @@ def oracle(line, out, hs, high, low):
         elif op == "X":
             if r != "N":
                 return f"failed insert at step {i}: an insertion whose image copy cannot be allocated was accepted"
+        elif op == "U":
+            if upper[key] > 0:
+                mru = [key] + [k for k in mru if k != key]
         elif op == "R":
+            if upper[key] > 0:
+                n_removed += 1
             sure[key] = max(0, sure[key] - 1)
             upper[key] = max(0, upper[key] - 1)
             if upper[key] == 0:
@@ -224,10 +379,17 @@ def draw_signature(r):
 def draw_exec(ctx, exe, lines, env, tag):
     d = ctx.scratch / "draw"
     d.mkdir(exist_ok=True)
-    ops, out = d / f"{tag}.ops", d / f"{tag}.out"
-    ops.write_text("\n".join(lines) + "\n")
-    subprocess.run([str(exe), "exec", str(ops), str(out)], env=env, stdout=subprocess.DEVNULL, stderr=subprocess.DEVNULL)
-    return out.read_text().split("\n")[:len(lines)]
+    return run_stream(exe, lines, d, tag, env=hardened(env), proc_timeout=150 if ctx.tier == "quick" else 900)
+
+
+def hardened(env=None):
+    """freed memory is poisoned by glibc (perturb byte), so that a use after free shows at once and the same way on every run"""
+    import os
+    e = dict(os.environ if env is None else env)
+    # (glibc's tcache would hand blocks back unpoisoned: switched off); VERIF_C17_NO_POISON=1 runs without it
+    if e.get("VERIF_C17_NO_POISON") != "1":
+        e["GLIBC_TUNABLES"] = "glibc.malloc.tcache_count=0:glibc.malloc.perturb=165"
+    return e
 
 
 def draw_shrink(ctx, exe, line, env):
@@ -276,14 +438,14 @@ def run_draw(ctx, b):
     chunks = []
     for i in range(nchunks):
         ops = d / f"gen{i}.ops"
-        subprocess.run([str(exe), "gen", str(ctx.seed * 1000 + i), str(per), str(ops)])
+        subprocess.run([str(exe), "gen", str(ctx.seed * 1000 + i), str(per), str(ops)], timeout=120)
         chunks.append([l for l in ops.read_text().split("\n") if l])
     corpus = VERIF / "corpus" / "glyph" / "draw.txt"
     if corpus.exists():
         chunks.append([l for l in corpus.read_text().splitlines() if l.startswith(("draw ", "spot "))])
     # systematic absolute spot checks (expected pixels computed without pixman)
     spots = d / "spots.ops"
-    subprocess.run([str(exe), "spots", str(spots)])
+    subprocess.run([str(exe), "spots", str(spots)], timeout=60)
     chunks.append([l for l in spots.read_text().split("\n") if l])
     chains = [("default", None), ("generic-only", "fast mmx sse2 ssse3")]
     jobs = []
@@ -310,7 +472,11 @@ def run_draw(ctx, b):
         for l, o in zip(lines, outs):
             total += 1
             if o.startswith("ok"):
-                if cname == "default":
+                if cname == "default" and l.startswith("acc "):
+                    t = l.split()
+                    nontriv.add(l)
+                    hist[f"acc:{t[1]}:{t[2]}-glyphs"] += 1
+                elif cname == "default":
                     t = l.split()
                     if o.split()[2] != "0":
                         nontriv.add(l)
@@ -320,7 +486,12 @@ def run_draw(ctx, b):
                         if t[0] == "draw" and t[1] == "M":
                             mfh[parse_draw(l)["mfmt"]] += 1
                 continue
-            if l.startswith("spot "):
+            if o.startswith("S | SKIPPED"):
+                continue
+            if l.startswith("acc "):
+                t = l.split()
+                sig = f"acc|composite_glyphs|mask {t[1]}|{t[2]} glyphs|{o.split()[0]}"
+            elif l.startswith("spot "):
                 t = l.split()
                 sig = f"spot|{'composite_glyphs_no_mask' if t[1] == 'N' else 'composite_glyphs|mask ' + t[3]}|{OP_NAMES[int(t[2])]}"
             else:
@@ -344,7 +515,9 @@ def run_draw(ctx, b):
                        "how_to_replay": "build harness/glyphdraw.c against libpixman; glyphdraw exec ops.txt out.txt "
                                         "(one request per line; format in the header of harness/glyphdraw.c)"},
                       signature=sig,
-                      what=("glyph drawing differs from the absolute expectation (colour glyph through a white source): " if l.startswith("spot ")
+                      what=((failure_kind(o2).replace("history", "request").replace("an operation", "a glyph drawing request") + ": ") if failure_kind(o2)
+                            else "accumulated glyph mask differs from the saturating sum min(2^bits-1, sum) / per-byte min(255, sum): " if l.startswith("acc ")
+                            else "glyph drawing differs from the absolute expectation (colour glyph through a white source): " if l.startswith("spot ")
                             else "glyph drawing differs from the reference composition (per-glyph composite / ADD-accumulated mask): ") + o2,
                       tag="draw")
     ctx.extra["glyph_drawing_mask_formats"] = dict(mfh)
@@ -353,11 +526,11 @@ def run_draw(ctx, b):
 
 
 def run(ctx):
-    broken = ctx.lean_obligations("Pixman.Props.C17", REQUIRED, extra_modules=["Pixman.Props.C17Draw"])
+    broken = ctx.lean_obligations("Pixman.Props.C17", REQUIRED, extra_modules=["Pixman.Props.C17Draw", "Pixman.Props.C17Add", "Pixman.Props.C17Dispatch"])
     quick = ctx.tier == "quick"
     b = ctx.build_pixman("plain")
     rnd = random.Random(ctx.seed)
-    configs = [(4, 2, 1), (8, 4, 2), (16, 8, 4)] + ([] if quick else [(32, 16, 8), (32768, 16384, 8192)])
+    configs = [(4, 2, 1), (8, 4, 2), (16, 8, 4)] + ([] if quick else [(32, 16, 8)]) + [(32768, 16384, 8192)]
     total = 0
     nontriv = 0
     samples = []
@@ -376,7 +549,7 @@ def run(ctx):
         # exhaustive small scope: every history of length <= L after an initial freeze
         if hs <= 8:
             symx = [s for s in sym if not s.startswith("U")]
-            L = (5 if hs == 4 else 4) if quick else (7 if hs == 4 else 5)
+            L = (5 if hs == 4 else 4) if quick else (6 if hs == 4 else 5)   # 14 resp. 18 symbols with X: 14^6 + 18^5 histories
             for n in range(1, L + 1):
                 for h in itertools.product(symx, repeat=n):
                     lines.append(f"hist {hs} {high} {low} F " + " ".join(h))
@@ -385,14 +558,17 @@ def run(ctx):
         # are tried on removed, live and fresh keys of the cluster, then every key is looked up,
         # every live key removed and looked up again
         cluster = pick_keys(hs, min(hs, 12)) if hs < 32768 else cluster_default()
-        nscen = (3000 if quick else 40000) if hs < 32768 else 300
+        nscen = (3000 if quick else 40000) if hs < 32768 else (150 if quick else 300)
+        wrapc = wrap_cluster(hs)
         for _ in range(nscen):
             cap = hs - 1                        # insert refuses at n_glyphs + n_tombstones >= hs - 1
-            m = rnd.randint(2, max(2, min(len(cluster) - 1, cap)))
-            ks = rnd.sample(cluster, m + 1)
+            # 40 %: keys whose probe run crosses the END of the table (home slots hs-2, hs-1, 0, 1)
+            cl, start = (wrapc, (hs - 2) % hs) if rnd.random() < 0.4 and len(wrapc) >= 3 else (cluster, 0)
+            m = rnd.randint(2, max(2, min(len(cl) - 1, cap)))
+            ks = rnd.sample(cl, m + 1)
             ins, spare = ks[:m], ks[m]
             if rnd.random() < 0.5:
-                ins.sort(key=lambda k: (wang(0, k) % hs, k))
+                ins.sort(key=lambda k: ((wang(0, k) % hs - start) % hs, k))
             h = ["F"] + [f"I:0:{k}" for k in ins]
             rem = [k for k in ins[:-1] if rnd.random() < 0.5] or [ins[0]]
             rnd.shuffle(rem)
@@ -405,11 +581,14 @@ def run(ctx):
                 h += [f"I:0:{spare}"] + [f"L:0:{k}" for k in ks]
             if rnd.random() < 0.5:
                 h += [f"R:0:{k}" for k in ins if k not in rem] + [f"L:0:{k}" for k in ks]
-            if rnd.random() < 0.5:
-                h.append("T")
+            if rnd.random() < 0.6:
+                # the outermost thaw (eviction / table dump decision), then every key again, then the cache is used on
+                h += ["T"] + [f"L:0:{k}" for k in ks]
+                if rnd.random() < 0.5:
+                    h += ["F", f"I:0:{spare}", f"L:0:{spare}", f"R:0:{spare}", "T"]
             lines.append(f"hist {hs} {high} {low} " + " ".join(h))
         # random longer histories, insertion-heavy so that tables fill and tombstones build up
-        nrand = (20000 if quick else 400000) if hs < 32768 else 300
+        nrand = (20000 if quick else 400000) if hs < 32768 else (60 if quick else 300)
         for _ in range(nrand):
             n = rnd.randint(3, 4 * hs if hs < 32768 else 60)
             style = rnd.random()
@@ -436,6 +615,8 @@ def run(ctx):
         jobs.append((hs, high, low, exe, lines))
 
     findings = []
+    fail_at = {}          # (table size, reported prefix) -> 1-based position of the history in its stream
+    stream_lines = {}
 
     def one(job):
         hs, high, low, exe, lines = job
@@ -443,7 +624,8 @@ def run(ctx):
         d.mkdir(exist_ok=True)
         ops, impl, model = d / "ops.txt", d / "impl.txt", d / "model.txt"
         ops.write_text("\n".join(lines) + "\n")
-        subprocess.run([str(exe), "exec", str(ops), str(impl)], stderr=subprocess.DEVNULL)
+        outs = run_stream(exe, lines, d, "impl", env=hardened(), proc_timeout=150 if quick else 1200)
+        impl.write_text("\n".join(outs) + "\n")
         ctx.pixdrv("glyph", ops, model)
         return job, ops, impl, model
 
@@ -453,11 +635,16 @@ def run(ctx):
         n, dis = diff_streams(ops, impl, model, limit=20)
         total += n
         for (ln, op, a, m) in dis:
+            if a.startswith("S | SKIPPED") or failure_kind(a):
+                continue               # reported by the oracle loop below (with the terminated prefix)
             findings.append(("disagree", hs, op, a, m, "model and implementation differ"))
         with open(impl) as f:
             outs = f.read().split("\n")
         seen = set()
+        seen_idx = []
+        stream_lines[hs] = lines
         for l, o in zip(lines, outs):
+            seen_idx.append(0)
             toks = l.split()[4:]
             for t in toks:
                 hist[t[0]] += 1
@@ -465,7 +652,14 @@ def run(ctx):
                 seen.add(l)
             why = oracle(l, o, hs, high, low)
             if why:
-                findings.append(("oracle", hs, l, o, None, why))
+                if failure_kind(o):
+                    # replay = the prefix of the history up to and including the operation that did not return
+                    npre, where = fail_where(toks, o)
+                    pre = l.split()[:4] + toks[:max(1, npre)]
+                    findings.append(("oracle", hs, " ".join(pre), o, None, f"{why} (in {where})"))
+                    fail_at[(hs, " ".join(pre))] = len(seen_idx)
+                else:
+                    findings.append(("oracle", hs, l, o, None, why))
         nontriv += len(seen)
         if lines:
             samples.append(min((l for l in lines if len(l.split()) > 8), key=len, default=lines[0]))
@@ -486,6 +680,8 @@ def run(ctx):
                        "glyph drawing: random requests (glyph formats a1/a4/a8/a8r8g8b8 component-alpha plus 8% unusual ones, "
                        "33 mask formats for pixman_composite_glyphs (alpha+colour = component-alpha mask, alpha-only, alpha-less), "
                        "2010 absolute spot checks (single-channel colour glyph through a white source must give that pure colour), "
+                       "1324 accumulation checks (2-3 one-pixel glyphs of format a1/a4/a8/a8r8g8b8 drawn at one place through pixman_composite_glyphs "
+                       "with the same mask format: the pixel must be min(2^bits-1, sum), per byte for component alpha, both glyph orders; a4 and a1 exhaustive in pairs), "
                        "sizes 1..12, origins -6..14, "
                        "positions inside/straddling/outside, clip regions of 0..4 rectangles, operators 0..13, solid and bits sources "
                        "with every repeat mode, 10 destination formats) through pixman_composite_glyphs_no_mask and "
@@ -500,9 +696,63 @@ def run(ctx):
     for kind, hs, line, a, m, text in findings:
         sig = f"{kind}|{text.split(' at step')[0]}" + ("|after-failed-insert" if kind == "oracle" and " X:" in line else "")
         groups.setdefault(sig, []).append((kind, hs, line, a, m, text))
+    exes = {hs: exe for (hs, high, low, exe, lines) in jobs}
+
+    def still_fails(hs, cand, text, context=()):
+        o = run_stream(exes[hs], list(context) + [cand], ctx.scratch / f"g{hs}", "shrink", env=hardened(), proc_timeout=30,
+                       max_restarts=0)
+        o = o[len(context)] if len(o) > len(context) else "S | SKIPPED"
+        fk = failure_kind(o)
+        return fk is not None and text.startswith(fk), o
+
     for sig, items in list(groups.items())[:6]:
         kind, hs, line, a, m, text = min(items, key=lambda it: len(it[2]))
-        ctx.violation({"kind": kind, "table_size": hs, "request": line, "implementation": a, "model": m, "oracle": text,
+        context = []
+        unrecovered = False
+        if kind == "oracle" and failure_kind(a):
+            # does the prefix fail in a fresh process?  If not, the state was damaged by earlier histories run by the
+            # same harness process: take more and more of the preceding histories into the replay
+            ok, o = still_fails(hs, line, text)
+            if not ok:
+                at = fail_at.get((hs, line))
+                w = 1
+                while at is not None and w <= 256 and not ok:
+                    context = stream_lines[hs][max(0, at - 1 - w):at - 1]
+                    ok, o = still_fails(hs, line, text, context)
+                    w *= 2
+                if not ok:
+                    context, unrecovered = [], True
+            if ok:
+                a = o
+                # greedy one-pass reduction: drop operations while the prefix still does not terminate / crashes
+                head, ops_ = line.split()[:4], line.split()[4:]
+                i = 0
+                while i < len(ops_) and len(ops_) > 1:
+                    cand = head + ops_[:i] + ops_[i + 1:]
+                    ok2, o = still_fails(hs, " ".join(cand), text, context)
+                    if ok2:
+                        ops_, a = ops_[:i] + ops_[i + 1:], o
+                    else:
+                        i += 1
+                line = " ".join(head + ops_)
+                # and drop context histories from the front
+                while context:
+                    ok2, o = still_fails(hs, line, text, context[1:])
+                    if not ok2:
+                        break
+                    context, a = context[1:], o
+        if kind == "oracle" and failure_kind(a) and not unrecovered:
+            text = f"{failure_kind(a)} (in {fail_where(line.split()[4:], a)[1]})"
+            sig = f"{kind}|{text}" + ("|after-failed-insert" if " X:" in line else "")
+        if unrecovered:
+            # the failure was observed but no replayable input could be recovered
+            ctx.violation({"kind": "harness-failure", "table_size": hs, "stream": f"cache histories, table size {hs}",
+                           "position_in_stream": fail_at.get((hs, line)), "request": line, "implementation": a,
+                           "oracle": text + " — not reproduced by the history alone nor with up to 256 preceding histories"},
+                          signature=sig + "|unrecovered", what=text, found_input=False, tag=f"hs{hs}")
+            continue
+        ctx.violation({"kind": kind, "table_size": hs, "request": line, "context_requests": context,
+                       "implementation": a, "model": m, "oracle": text,
                        "count_in_run": len(items),
                        "how_to_replay": "compile harness/glyph.c with -DPIXMAN_VERIF -DPIXMAN_VERIF_GLYPH_HIGH_WATER=<size/2> "
                                         "-DPIXMAN_VERIF_GLYPH_LOW_WATER=<size/4>; glyph exec ops.txt out.txt"},
@@ -539,7 +789,9 @@ def replay(ctx, path):
     d.mkdir(exist_ok=True)
     ops, impl, model = d / "ops.txt", d / "impl.txt", d / "model.txt"
     ops.write_text(line + "\n")
-    subprocess.run([str(exe), "exec", str(ops), str(impl)], stderr=subprocess.DEVNULL)
+    context = obj.get("context_requests") or []
+    ro = run_stream(exe, context + [line], d, "impl", env=hardened(), proc_timeout=60, max_restarts=0)
+    impl.write_text((ro[len(context)] if len(ro) > len(context) else "S | SKIPPED") + "\n")
     ctx.lean_obligations("Pixman.Props.C17", [])
     ctx.pixdrv("glyph", ops, model)
     a, m = impl.read_text().strip(), model.read_text().strip()
